@@ -143,6 +143,8 @@ struct Program {
     convertible: bool,
     /// the module declares a pipeline and is compiled in pipeline mode (entry point, its attributes, its globals)
     pipeline: bool,
+    /// a cross-kind form: the untyped literal is folded into this float kind
+    folded_to: Option<&'static str>,
 }
 
 /// Declaration / statement forms a literal can be written in (wave 6): `@T` = the scalar type the literal's suffix
@@ -193,6 +195,18 @@ pub const TEMPLATES: &[(&str, bool, &str, &str)] = &[
     ("plus", false, "void f_zq() { +@L; }\n", "    +"),
     ("comma", false, "void f_zq(@T x_zq) { (x_zq, @L); }\n", "    x_zq, "),
     ("swzbare", false, "void f_zq() { @L.xx; }\n", "    "),
+    // cross-kind forms: the context names another scalar type than the literal's suffix; the typer folds the untyped literal
+    // into it (`xh*`: half, `xf*`: float, `xd*`: double); the value must survive (integers exactly, floats narrowed once)
+    ("xhlocal", false, "void f_zq() { half v_zq = @L; }\n", " v_zq = "),
+    ("xhret", false, "half rf_zq() { return @L; }\n", "    return "),
+    ("xhdefarg", false, "half df_zq(half a_zq = @L) { return a_zq; }\nvoid f_zq() { df_zq(); }\n", " a_zq = "),
+    ("xhinit", false, "static const half g_zq = @L;\n", " g_zq = "),
+    ("xflocal", false, "void f_zq() { float v_zq = @L; }\n", " v_zq = "),
+    ("xfcallarg", false, "void g_zq(float a_zq) {}\nvoid f_zq() { g_zq(@L); }\n", "    g_zq("),
+    ("xfarrinit", false, "static const float a_zq[2] = { @L, @L };\n", " a_zq[2] = { "),
+    ("xfbinop", false, "void f_zq(float x_zq) { x_zq + @L; }\n", "    x_zq + "),
+    ("xdlocal", false, "void f_zq() { double v_zq = @L; }\n", " v_zq = "),
+    ("xdinit", false, "static const double g_zq = @L;\n", " g_zq = "),
     ("enum2", true, "enum E_zq { Z_zq, A_zq = @L, B_zq };\nstatic const int g_zq = (int)B_zq;\n", "A_zq = "),
 ];
 
@@ -241,7 +255,7 @@ fn build_program(ctx: &str, lit: &str, rng_split: usize, msl: bool) -> Result<Pr
     };
     let is_int = matches!(src, RefNum::Int { .. });
     let main = |body: &str| vec![("main.rssl".to_string(), body.to_string())];
-    let mut p = Program { files: Vec::new(), defines: Vec::new(), want_kind: Some(kind), negated: false, narrow_to_f32: false, convertible: false, pipeline: false };
+    let mut p = Program { files: Vec::new(), defines: Vec::new(), want_kind: Some(kind), negated: false, narrow_to_f32: false, convertible: false, pipeline: false, folded_to: None };
     match ctx {
         "stmt" => p.files = main(&format!("void f_zq() {{ {}; }}\n", lit)),
         "neg" => {
@@ -371,6 +385,19 @@ fn build_program(ctx: &str, lit: &str, rng_split: usize, msl: bool) -> Result<Pr
                 p.negated = true;
             }
             p.pipeline = tpl.contains("Pipeline ");
+            if ctx.starts_with('x') {
+                let to = match &ctx[..2] {
+                    "xh" => "Float16",
+                    "xf" => "Float32",
+                    _ => "Float64",
+                };
+                // untyped literals only (a suffixed literal in another type's context is an arithmetic conversion, C13);
+                // `float` from an untyped float is the `local` / `callarg` … forms
+                if !(kind == "Int" || (kind == "Float" && to != "Float32")) {
+                    return Err("cross-kind forms are for untyped literals".into());
+                }
+                p.folded_to = Some(to);
+            }
             p.files = main(&tpl.replace("@T", ty).replace("@V", vec).replace("@L", lit));
         }
     }
@@ -474,7 +501,7 @@ pub fn run_emit(field: &str, lit: &str, hist: &mut Hist) -> (String, String) {
                     RefNum::Float { kind, .. } => kind,
                     _ => "",
                 };
-                if tgt == Tgt::Msl && (kind == "Float64" || (ctx == "init" && kind == "Float")) {
+                if tgt == Tgt::Msl && (kind == "Float64" || (ctx == "init" && kind == "Float") || ctx.starts_with("xd")) {
                     "SKIP:rejected by the front end (double on Metal)".to_string()
                 } else {
                     format!("FAIL:emit literal {} is not a double but was rejected as UnsupportedDouble ({})", lit, tgt.name())
@@ -525,6 +552,41 @@ fn emit_oracle(lit: &str, printed: &str, tgt: Tgt, prog: &Program, hist: &mut Hi
     let Some(b) = parse_printed(printed, tgt) else {
         return format!("FAIL:emit literal {} printed as {} which is not a numeric literal", lit, printed);
     };
+    if let Some(to) = prog.folded_to {
+        // the exact value of the source literal as a double (an `int` literal is below 2^31: exact), narrowed once for half / float
+        let src64 = match &a {
+            RefNum::Float { bits64, .. } => *bits64,
+            RefNum::Int { value, .. } => match value.to_u64() {
+                Some(v) => ref_nearest64(format!("{}", v).as_bytes(), 0),
+                None => return "SKIP:source integer beyond 64 bits".into(),
+            },
+            RefNum::NotNumeric => return "SKIP:source text is not one numeric literal".into(),
+        };
+        let want = narrowed(to, src64);
+        return match &b.num {
+            RefNum::Float { kind: k2, bits64: b2 } => {
+                let got = if b.any_float_kind { narrowed(to, *b2) } else { narrowed(k2, *b2) };
+                if matches!(&a, RefNum::Float { kind: k1, bits64: b1 } if k1 == k2 && b1 == b2) && !b.neg && !b.any_float_kind {
+                    // not folded: the literal stays as written (seen for the default argument of a `half` parameter)
+                    hist.add("emit.ok.folded.kept");
+                    "ok".into()
+                } else if *k2 != to && !b.any_float_kind {
+                    format!("FAIL:emit literal {} in a {} context printed as {} (kind {})", lit, to, printed, k2)
+                } else if got != want || b.neg {
+                    format!("FAIL:emit literal {} folded to {} ({:x}) printed as {} ({:x})", lit, to, want, printed, got)
+                } else {
+                    hist.add(&format!("emit.ok.folded.{}", to));
+                    "ok".into()
+                }
+            }
+            // the literal may also stay as written behind a conversion the output spells out
+            RefNum::Int { value: v2, .. } => match &a {
+                RefNum::Int { value: v1, .. } if v1 == v2 && !b.neg => "ok".into(),
+                _ => format!("FAIL:emit literal {} in a {} context printed as integer literal {}", lit, to, printed),
+            },
+            RefNum::NotNumeric => format!("FAIL:emit literal {} printed as {} which is not a numeric literal", lit, printed),
+        };
+    }
     match (&a, &b.num) {
         (RefNum::NotNumeric, _) => "SKIP:source text is not one numeric literal".into(),
         (RefNum::Int { kind: k1, value: v1 }, RefNum::Int { kind: k2, value: v2 }) => {
